@@ -120,7 +120,7 @@ PROPS = {
     "C07": dict(
         components=["VortexMesh", "EvalVelMtx", "Taper", "Sweep", "Dihedral", "VonMisesWingbox", "VonMisesTube", "PointMassLoads", "ThrustLoads"],
         extra_suites=[suites.aero_pipeline_suite],
-        assumptions=["structural mirror equivariance is examined by the oracle only"],
+        assumptions=["aerodynamic mirror equivariance is proved for full-span surfaces without ground effect; structural mirror equivariance and the coefficient functionals are examined by the oracle only"],
     ),
     "C08": dict(
         components=["VortexMesh", "EvalVelMtx"],
